@@ -44,12 +44,9 @@ def obligations(tier):
            descr='the same sweep in SequenceExtractor.extract', bounds='as O12.3-number-sweep',
            encodes=['recognizers_sequence.sequence.extractors:SequenceExtractor.extract']),
         Ob('O12.4-b_add', 'sx', S + 'h_b_add', slices=[{'src': 'abcdefgh'}], timeout=t,
-           descr='AbstractNumberWithUnitModel.parse keeps pairwise disjoint entities (minus region F3b)',
+           descr='AbstractNumberWithUnitModel.parse: results that are pairwise identical or disjoint (what its extractors deliver and its accumulating loop re-processes) come out pairwise disjoint, each once',
            bounds='3 parse results anywhere in a text of length 8',
            encodes=['recognizers_number_with_unit.number_with_unit.models:AbstractNumberWithUnitModel.parse']),
-        Ob('O12.4-b_add-kf', 'sx', S + 'h_b_add_kf', slices=[{'src': 'abcdef'}], timeout=t, finding='F3b',
-           descr='region F3b: a later result lies inside or partially overlaps an earlier one'),
-        Ob('O12.4-witness', 'fn', 'harness.witness:api_witness', slices=[{'w': 'F3b'}], timeout=t, finding='F3b', descr='API witness of F3b'),
         Ob('O12.5-select-candidates', 'sx', S + 'h_select_candidates', timeout=max(t, 300),
            descr='NumberWithUnitExtractor._select_candidates: prefix/suffix currency candidates that share a unit are resolved to pairwise disjoint entities',
            bounds='2..3 candidates (one number each, numbers distinct, units possibly shared) anywhere in a text of length 10, prefix/suffix flags symbolic',
